@@ -9,9 +9,10 @@ d=/var/tmp/verif-variant-$$
 rm -rf $d; mkdir -p $d
 cp -r $src/Cargo.toml $src/Cargo.lock $src/src $src/tests $d/
 rm -f $d/tests/seed_demo.rs
-cd /verif
+V=$(cd "$(dirname "$0")/.." && pwd)
+cd $V
 for p in $props; do
-  VERIF_REPO=$d VERIF_EVIDENCE_DIR=/verif/work/audit-evidence ./check $p quick > /tmp/variant_$p.txt 2>&1; rc=$?
+  VERIF_REPO=$d VERIF_EVIDENCE_DIR=$V/work/audit-evidence ./check $p quick > /tmp/variant_$p.txt 2>&1; rc=$?
   if [ $rc -ne 0 ]; then
     echo "== $p exit $rc"
     f=$(grep "^VIOLATION" /tmp/variant_$p.txt | head -1 | sed 's/.*replay=//')
